@@ -20,7 +20,13 @@ Floating point. The field theorems speak of exact arithmetic. The last sections 
 `rounded_cell_in_grid` / `rounded_conservation` are about the SAME definitions `mkGrid`, `getCell`, `scatter` instantiated
 at `RQ rnd` (rationals, every operation rounded by `rnd`; `Lemmas/RasterRounded.lean`), under explicit hypotheses on `rnd`
 (monotone, integers up to the grid size kept, relative error `u`). Rounding inside the cell operators' sums is not covered.
-`scatter_stops_at_outside` and `compute_failing_bands` state what a failing call leaves behind. -/
+`scatter_stops_at_outside` and `compute_failing_bands` state what a failing call leaves behind.
+`computed_bands_persist` / `session_spec_after_setters` state what the calls AFTER a `computeAggregates` leave of its bands
+(`setNoDataValue`, `addAFMap`: nothing is rewritten; the marker in a cell without value is the one of the call that wrote it).
+
+Feature tables. The theorems here speak of the feature values of a track BY NAME (`Trk.feats`, `featVals`). That the ranks at
+which a track stores its features (its own dictionary; different from track to track in one collection) do not matter is
+`Props/C19Layout.lean`: `add_collection_by_name`, `track_layout_sound`, `add_collection_layout_independent`. -/
 namespace TV.C19
 open TV.Raster
 variable {α : Type} [Field α] [LinearOrder α] [IsStrictOrderedRing α] [FloorRing α]
@@ -317,6 +323,49 @@ theorem session_spec (g : Grid α) (hg : WF g) (nd : Option α) (pre post : List
     refine ⟨c, hR, hc, ?_⟩
     rw [computeBand_ok _ _ b0 af' opn' rest' op c hn' hl hop]
 
+/-- Reading the bands later. `computeAggregates` is the only call that writes into a band: after ANY sequence of other calls
+on a raster in any state — `setNoDataValue` with any value, any number of times; `addAFMap`, failing or not; even
+`addCollectionToRaster` — the geometry is the same, the bands of before are all still there, in place, each with the very
+grid it held (so a genuine aggregate that happens to be equal to a no-data marker, old or new, is never rewritten, and a
+cell without value keeps the marker of the call that wrote it), the bands added since have names not taken before, and
+`getAFMap(name)` returns what it returned. -/
+theorem computed_bands_persist (floor : α → Int) (s : RState α) (later : List (Cmd α))
+    (hlater : ∀ c ∈ later, c.isCompute = false) :
+    (run floor s later).1.g = s.g
+    ∧ (∃ extra, (run floor s later).1.bands = s.bands ++ extra ∧ ∀ b ∈ extra, ∀ b' ∈ s.bands, b.name ≠ b'.name)
+    ∧ ∀ name b, getBand s name = some b → getBand (run floor s later).1 name = some b := by
+  obtain ⟨extra, h1, h2⟩ := run_keeps_bands floor later s hlater
+  exact ⟨run_g floor later s, ⟨extra, h1, h2⟩, fun name b hb => getBand_append s _ extra h1 name b hb⟩
+
+/-- `session_spec`, read later: after the sequence of `session_spec` (any calls, a well-formed `addCollectionToRaster(T)`, calls
+other than `addCollectionToRaster`, `computeAggregates`), then ANY calls other than `computeAggregates` (`setNoDataValue` once or
+several times — to 0, to a count, to a value a cell really holds —, `addAFMap`, …): the bands written by that
+`computeAggregates` (`s3.bands`) are the first bands of the final raster `s4`, unchanged: EVERY one still holds its operator
+over exactly the values of the observations of `T` located in each cell, and in a cell without a non-NaN value 0 for count /
+sum, otherwise the no-data value the raster had AT THAT `computeAggregates` (`s3.noData`) — not the one it has now. -/
+theorem session_spec_after_setters (g : Grid α) (hg : WF g) (nd : Option α) (pre post later : List (Cmd α)) (afo : List String)
+    (T : List (Trk α))
+    (hpost : ∀ c ∈ post, c.isAdd = false)
+    (hperm : afo.isPerm (afsOf (run Int.floor (initState g nd) pre).1.bands) = true)
+    (hfeat : ∀ t ∈ T, ∀ af ∈ afo, (featVals t af).isSome = true) (hin : ∀ t ∈ T, InExtent g t)
+    (hbands : ∀ b ∈ (run Int.floor (initState g nd) (pre ++ [.add afo T] ++ post)).1.bands,
+        ∃ af opn rest, b.name = af :: opn :: rest ∧ af ∈ afo ∧ (opOf opn).isSome = true)
+    (hlater : ∀ c ∈ later, c.isCompute = false) :
+    ∃ (s3 s4 : RState α) (outs : List (Option Err)) (extra : List (Band α)),
+      run Int.floor (initState g nd) (pre ++ [.add afo T] ++ post ++ [.compute]) = (s3, outs)
+      ∧ (run Int.floor (initState g nd) (pre ++ [.add afo T] ++ post ++ [.compute] ++ later)).1 = s4
+      ∧ s4.g = g ∧ s4.bands = s3.bands ++ extra ∧ (∀ b ∈ extra, ∀ b' ∈ s3.bands, b.name ≠ b'.name)
+      ∧ ∀ b ∈ s3.bands, ∀ af opn rest op, b.name = af :: opn :: rest → opOf opn = some op →
+          ∃ c : Cells (Option α), Rect c g.nrow.toNat g.ncol.toNat
+            ∧ (∀ i j, cellAt c i j = located (fun o : α × α × Option α => getCell Int.floor g o.1 o.2.1) (fun o => o.2.2) j i
+                (T.flatMap (fun t => obsOf t af)))
+            ∧ b.grid = some (aggregatesN s3.noData op c) := by
+  obtain ⟨s3, outs, hrun, _, _, hg3, _, _, hspec⟩ := session_spec g hg nd pre post afo T hpost hperm hfeat hin hbands
+  obtain ⟨hg4, ⟨extra, hb4, hfresh⟩, _⟩ := computed_bands_persist Int.floor s3 later hlater
+  refine ⟨s3, _, outs, extra, hrun, rfl, ?_, ?_, hfresh, hspec⟩
+  · rw [run_append, hrun]; simp only; rw [hg4, hg3]
+  · rw [run_append, hrun]; exact hb4
+
 /-- One-shot corollary: `summarize`. For EVERY collection of non-empty tracks — a north-south or east-west line of
 observations and a single observation included, whose extent has no width or no height —, positive resolution, margin ≥ 0,
 a non-empty list of (feature, operator) pairs without repetition, operators among the six, every track having every
@@ -515,6 +564,17 @@ example :
         [.band ["v", "co_min"] none, .band ["v", "co_count"] none, .add ["v"] demoT1, .setNoData none, .compute]).1.bands.map (·.grid)
       = [some [[none, none], [none, some 4]], some [[some 0, some 0], [some 0, some 1]]] := by
   decide +kernel
+/-- the no-data value changed after the bands were computed (the input of seeded change C19-11): a raster built with `novalue = -1`:
+the min band holds -1 in the cells without value, the count band genuine 0s and 1s; `setNoDataValue(0)`, `setNoDataValue(1)`, a band
+added, `setNoDataValue(None)`: the two computed bands are exactly as `computeAggregates` left them (the -1 of the cells without
+value, the 0 and 1 of the counts), the new band is empty, the no-data value is `None` -/
+example :
+    let s := (run Rat.floor (initState demoGrid (some (-1))) [.band ["v", "co_min"] none, .band ["v", "co_count"] none, .add ["v"] demoT0, .compute]).1
+    let s' := (run Rat.floor s [.setNoData (some 0), .setNoData (some 1), .band ["w", "co_sum"] none, .setNoData none]).1
+    s.bands.map (·.grid) = [some [[some (-1), some 3], [some 1, some (-1)]], some [[some 0, some 1], [some 1, some 0]]]
+    ∧ s'.bands.map (·.grid) = [some [[some (-1), some 3], [some 1, some (-1)]], some [[some 0, some 1], [some 1, some 0]], none]
+    ∧ s'.noData = none ∧ (getBand s' ["v", "co_count"]).map (·.grid) = some (some [[some 0, some 1], [some 1, some 0]]) := by decide +kernel
+
 /-- calls that raise, in the order the Python meets them: `computeAggregates` before any collection (`AttributeError`), a name
 already taken (`WrongArgumentError`), a band without `#` (`IndexError`), an observation outside the grid (`TypeError`), a band
 added after the collection for a feature it did not scatter (`KeyError`), an unknown operator (`NameError`) -/
